@@ -117,6 +117,7 @@ func TestMain(m *testing.M) {
 	}
 	monitoring.SetMetricFactory(bothFactory{recorder, mprom.MetricFactory{Prefix: "verifsim_"}})
 	loadKnown()
+	sweepScratch()
 	if mode := os.Getenv("VERIF_CHILD"); mode != "" {
 		if f := childModes[mode]; f != nil {
 			f()
@@ -259,6 +260,14 @@ func TestWorker(t *testing.T) {
 		}
 		res.Runs++
 		if wantTrace {
+			if f := os.Getenv("VERIF_TRACEDUMP"); f != "" { // debugging aid for the determinism self-test: what goes into the hash, for diffing
+				if fh, err := os.OpenFile(f, os.O_APPEND|os.O_CREATE|os.O_WRONLY, 0o644); err == nil {
+					ds := append([]string{}, out.Distinct...)
+					sort.Strings(ds)
+					fmt.Fprintf(fh, "run %d seed %d sched %s\n%s\n%v\n%s\n", n, seed, out.SchedHash, strings.Join(out.Events, "\n"), out.Viol, strings.Join(ds, ","))
+					fh.Close()
+				}
+			}
 			fmt.Fprintf(traceHash, "run %d seed %d sched %s\n", n, seed, out.SchedHash)
 			for _, e := range out.Events {
 				traceHash.Write([]byte(e + "\n"))
